@@ -161,6 +161,10 @@ fn main() {
             let a = &args[1..];
             wi::cmd_iters(&arg(a, "--out").unwrap_or_else(|| usage()), arg(a, "--seed").map(|s| s.parse().unwrap()).unwrap_or(1), a.iter().any(|x| x == "--thorough"));
         }
+        "long-one" => {
+            let a = &args[1..];
+            long::cmd_long_one(&a[0], a[1].parse().unwrap(), a[2].parse().unwrap());
+        }
         "long" => {
             let a = &args[1..];
             long::cmd_long(&arg(a, "--out").unwrap_or_else(|| usage()), arg(a, "--seed").map(|s| s.parse().unwrap()).unwrap_or(1), a.iter().any(|x| x == "--thorough"));
